@@ -33,8 +33,14 @@ for job in $JOBS; do
         maxlen=600; runs=$RUNS
     else
         export PGFUZZ_TARGET=$sel
-        head -c 64 /dev/zero > "$work/zeros"; printf 'seed%s' "$SEED" > "$work/s"
-        maxlen=1500; runs=$((RUNS / 8))
+        case "$sel" in
+        0) subname=graph/history ;; 1) subname=stable/history ;; 2) subname=matrix/history ;; 3) subname=graphmap/history ;;
+        4) subname=csr/history ;; 5) subname=list/history ;; 6) subname=acyclic/history ;; 7) subname=unionfind/history ;;
+        esac
+        # starting corpus: 96 histories drawn from the proptest strategy (encoded with pgcheck::fuzzde) + the empty input
+        VERIF_SEED=$SEED /verif/harness/target/release/pgcheck fuzz-seeds "$work" "$ID" "$subname" 96 2>/dev/null || exit 2
+        : > "$work/empty"
+        maxlen=1500; runs=$((RUNS / 4))
     fi
     out="$F/work/$ID-$target-$sel.log"
     cargo +nightly fuzz run --fuzz-dir "$F" "$target" "$work" -- -runs="$runs" -seed="$SEED" -max_len=$maxlen -len_control=0 \
